@@ -26,6 +26,7 @@ import (
 	"strconv"
 	"strings"
 	"sync"
+	"time"
 
 	"verif/mc/explore"
 )
@@ -71,7 +72,8 @@ type ilvRun struct {
 	buf    []byte
 
 	polls, blockedSeen, startedWhileOtherInside, preemptions int
-	wire                                                    []byte // who put a frame on the wire, in order ('0'/'1')
+	pollNs                                                   int64
+	wire                                                     []byte // who put a frame on the wire, in order ('0'/'1')
 }
 
 func curGoid() uint64 {
@@ -231,7 +233,9 @@ func (s *ilvRun) settle() (blocked [2]bool) {
 		// Everybody not listed was parked or finished BEFORE this snapshot and stays so until released.
 		s.polls++
 		all := true
+		t0 := time.Now()
 		st := s.snapshot(ids)
+		s.pollNs += time.Since(t0).Nanoseconds()
 		for _, g := range st {
 			if !g.blockedInCodeUnderTest() {
 				all = false
